@@ -103,6 +103,23 @@ def sys_suite(name, pred, quick, thorough, length=60, extra=None):
     }
 
 
+VSYS_HEADER = "From GK Require Import VSys SysCheck.\nOpen Scope string_scope.\nOpen Scope list_scope.\nOpen Scope Z_scope."
+
+
+def vsys_suite(name, pred, quick, thorough, length=50, extra=None):
+    """the pipeline in its second configuration: Scheduler over NewVolatileTaskRepo(CronStore) (model VSys.v)"""
+    return {
+        "name": name, "cmd": ["sys", "--volatile", "--len", str(length)] + (extra or []), "header": VSYS_HEADER,
+        "hist_type": "vcase",
+        "eval": "Definition M := Eval vm_compute in vsys_mismatches scfg_current cases 0.\nPrint M.\n"
+                "Definition V := Eval vm_compute in vtrace_violations %s cases 0.\nPrint V." % pred,
+        "diag": "Eval vm_compute in match nth_error cases {k} with Some x => Some (vsys_expect scfg_current x {i}) | None => None end.",
+        "show": "Eval vm_compute in match nth_error cases {k} with Some x => vc_trace x | None => [] end.",
+        "sig": "false", "timeout": 1200,
+        "quick": quick, "thorough": thorough,
+    }
+
+
 def hook_suite(name, quick, thorough, length=40, extra=None):
     return {
         "name": name, "cmd": ["hook", "--len", str(length)] + (extra or []),
@@ -189,12 +206,17 @@ SUITES = {
         repo_suite("c19-inmem", "inmem", "c01", "p_C19", {"n": 20, "shards": 6}, {"n": 150, "shards": 16}, extra=["--scribble"]),
         repo_suite("c19-ent", "ent", "c13", "p_C19", {"n": 15, "shards": 6}, {"n": 100, "shards": 16}, extra=["--scribble"]),
         cron_suite("c19-cron", "c15", "false true", "false true", {"n": 10, "shards": 4}, {"n": 60, "shards": 16}, extra=["--scribble"]),
+        vsys_suite("c19-vsys", "vall_ok", {"n": 25, "shards": 3}, {"n": 150, "shards": 16}, extra=["--scribble"]),
     ]},
-    "C03": {"suites": [sys_suite("c03-sys", "c03_ok", {"n": 25, "shards": 10}, {"n": 200, "shards": 16})]},
+    "C03": {"suites": [sys_suite("c03-sys", "c03_ok", {"n": 25, "shards": 10}, {"n": 200, "shards": 16}),
+                       sys_suite("c03-sys-faults", "c03_ok", {"n": 25, "shards": 4}, {"n": 150, "shards": 16}, extra=["--faults"]),
+                       vsys_suite("c03-vsys", "vc03_ok", {"n": 25, "shards": 4}, {"n": 200, "shards": 16})]},
     "C04": {"suites": [sys_suite("c04-sys", "c04_ok", {"n": 25, "shards": 8}, {"n": 200, "shards": 16}),
-                       sys_suite("c04-sys-faults", "c04_ok", {"n": 25, "shards": 6}, {"n": 150, "shards": 16}, extra=["--faults"])]},
+                       sys_suite("c04-sys-faults", "c04_ok", {"n": 25, "shards": 6}, {"n": 150, "shards": 16}, extra=["--faults"]),
+                       vsys_suite("c04-vsys", "vc04_ok", {"n": 25, "shards": 2}, {"n": 200, "shards": 16})]},
     "C05": {"suites": [sys_suite("c05-sys", "c05_ok", {"n": 25, "shards": 8}, {"n": 200, "shards": 16}),
-                       sys_suite("c05-sys-faults", "c05_ok", {"n": 25, "shards": 6}, {"n": 150, "shards": 16}, extra=["--faults"])]},
+                       sys_suite("c05-sys-faults", "c05_ok", {"n": 25, "shards": 6}, {"n": 150, "shards": 16}, extra=["--faults"]),
+                       vsys_suite("c05-vsys", "vc05_ok", {"n": 25, "shards": 4}, {"n": 200, "shards": 16})]},
     "C06": {"suites": [sys_suite("c06-sys", "c06_ok", {"n": 25, "shards": 10}, {"n": 200, "shards": 16})]},
     "C20": {"suites": [sys_suite("c20-sys", "c20_ok", {"n": 25, "shards": 10}, {"n": 200, "shards": 16}, extra=["--faults"])]},
     "C07": {"suites": [
